@@ -7,6 +7,7 @@ use num_bigint::BigUint;
 use num_traits::{One, Zero};
 
 mod msm;
+mod poly;
 use msm::{gen_case, pool, run_bls_specific, run_bn_specific, run_booth, run_generic, BasePool, Entry, Mode, POOLS};
 
 /// `parallelize`: the (offset, length) pairs the workers receive, and whether every index was
@@ -251,5 +252,9 @@ fn main() {
     run_booth(&mut ctx);
     run_msm(&mut ctx);
     run_edge_probes(&mut ctx);
+    poly::run_fft(&mut ctx);
+    poly::run_eval_kate_interp(&mut ctx);
+    poly::run_domain(&mut ctx);
+    poly::run_commit(&mut ctx);
     ctx.finish();
 }
